@@ -23,7 +23,8 @@ Inductive ev :=
 | ERR (i k : nat)                                     (* reducer received *)
 | ERW (k : nat) | ERD (k : nat)                       (* before / after writer.Write in the reducer *)
 | ERP (p : nat) | ERE | ERet                          (* reducer panics / returns; the call returned *)
-| EGW (i : nat) | EGR.                                (* generator waits at its gate before item i / gate released *)
+| EGW (i : nat) | EGR
+| EPX (i : nat) | ERPX.                               (* a panic the script did not raise left a mapper / the reducer callback *)                                (* generator waits at its gate before item i / gate released *)
 
 Inductive xout := XRet (k : nat) | XErr (e : err) | XNoOutput | XPanic (p : pval) | XTwice | XNil | XHang | XOther.
 
@@ -204,7 +205,7 @@ Definition ctx_rule (c : case) : bool :=
   then xout_eqb (c_out c) (XErr EDeadline) else true.
 
 (* `skip` leaves out the clause(s) a known-finding class is about (used by the harness' classify to decide that the
-   class' anomaly is the ONLY failure): 0 nothing; 1 outcome_ok and cancel_rule (send_on_closed); 2 panic_rule
+   class' anomaly is the ONLY failure): 0 nothing; 1 outcome_ok, cancel_rule and the no-unscripted-panic clause (send_on_closed); 2 panic_rule
    (reducer_write_then_panic); 3 ctx_rule (ctx_select_race) *)
 Definition spec_ok_gen (skip : nat) (c : case) : bool :=
   let t := c_trace c in
@@ -213,7 +214,9 @@ Definition spec_ok_gen (skip : nat) (c : case) : bool :=
   recv_ok [] t &&
   (if sclean c && negb (has_cancel_act c) && negb (existsb (existsb (fun a => match a with AWaitRet => true | _ => false end)) (c_items c))
    then clean_ok c else true) &&
-  (Nat.eqb skip 1 || (outcome_ok c && cancel_rule c)) && (Nat.eqb skip 2 || panic_rule c) &&
+  (Nat.eqb skip 1 || (outcome_ok c && cancel_rule c &&
+                      (* the library never makes a callback panic (writer.Write on a closed channel) *)
+                      negb (existsb (fun e => match e with EPX _ | ERPX => true | _ => false end) t))) && (Nat.eqb skip 2 || panic_rule c) &&
   (Nat.eqb skip 3 || ctx_rule c) &&
   match c_out c with XHang | XOther => false | _ => true end &&                         (* the call returns *)
   Nat.eqb (c_leaked c) 0.                                                               (* no goroutine left *)
